@@ -578,6 +578,8 @@ def to_coq(case, obs):
     if k == "parse":
         if obs[0] == "raises":
             r = "ORaises"
+        elif obs[0] == "rejected":
+            r = "ORejected"
         elif obs[0] == "unknown":
             r = "OUnknown"
         elif obs[0] == "ok":
